@@ -10,10 +10,14 @@ enumeration of the faces of the stored cells, and the indexed and the direct var
  * §6  f-vector entries and the alternating sum `eulerChi`
  * §7  the Euler-characteristic classification table
  * §8  non-vacuity on the two-triangle complex of Props/C05
+ * §9  the facet handshake (double counting of facet incidences), closed complexes, `3F = 2E`
+ * §10 non-vacuity of §9: the two triangles and the boundary of a tetrahedron
 
-Helper lemmas live in Lemmas/QueryAux.lean.  Everything here is core-only.
+Helper lemmas live in Lemmas/QueryAux.lean and Lemmas/HandshakeAux.lean.  Everything here is
+core-only.
 -/
 import DelaunayModel.Lemmas.QueryAux
+import DelaunayModel.Lemmas.HandshakeAux
 import DelaunayModel.Props.C05
 namespace DM.C15
 
@@ -361,5 +365,277 @@ listed twice by the index but once by the direct query (Level 1 rejects such a c
 theorem vertexToCells_ne_direct_of_dup :
     let K : Cx := { D := 2, verts := [], cells := [⟨0, [1, 1, 2], none⟩] }
     bucketGet (vertexToCells K) 1 = [0, 0] ∧ adjacentCells K 1 = [0] := by decide
+
+/-! ## §9 the facet handshake
+
+Every cell of a `D`-complex contributes `D + 1` facet incidences `(key, cell, slot)`; grouping the
+incidences by key counts every key as often as its degree.  No bound on the number of cells, on the
+dimension or on the vertex ids is assumed anywhere in this section. -/
+
+/-- each cell contributes `D + 1` facet incidences -/
+theorem allFacets_length (K : Cx) (hlen : ∀ c ∈ K.cells, c.vs.length = K.D + 1) :
+    (allFacets K).length = (K.D + 1) * K.cells.length :=
+  facetsOf_length K.cells (K.D + 1) hlen
+
+/-- the degree of a key is the number of its occurrences in the key list -/
+theorem facetDeg_eq_count (K : Cx) (k : List Nat) :
+    facetDeg K k = ((allFacets K).map (·.1)).count k := DM.facetDeg_eq_count K k
+
+/-- the general double count, with NO hypothesis on `K`: for any duplicate-free list `keys` that
+contains every facet key, the number of facet incidences is the sum of the degrees -/
+theorem facet_incidences_eq_sum_deg (K : Cx) (keys : List (List Nat)) (hnd : keys.Nodup)
+    (hall : ∀ t ∈ allFacets K, t.1 ∈ keys) :
+    (allFacets K).length = (keys.map (facetDeg K)).sum :=
+  length_eq_sum_countP (fun t : List Nat × Nat × Nat => t.1) (allFacets K) keys hnd hall
+
+/-- handshake over any duplicate-free enumeration `keys` of the facet keys (no hypothesis on the
+cell sizes): #incidences = 2 · #(keys of degree 2) + #(keys of degree 1) -/
+theorem handshake_of_enum (K : Cx) (hdeg : facetDegOk K = true) (keys : List (List Nat))
+    (hnd : keys.Nodup) (hmem : ∀ k, k ∈ keys ↔ ∃ t ∈ allFacets K, t.1 = k) :
+    (allFacets K).length =
+      2 * (keys.filter (fun k => facetDeg K k == 2)).length +
+        (keys.filter (fun k => facetDeg K k == 1)).length := by
+  rw [facet_incidences_eq_sum_deg K keys hnd (fun t ht => (hmem t.1).2 ⟨t, ht, rfl⟩)]
+  refine sum_map_one_or_two keys (facetDeg K) ?_
+  intro k hk
+  obtain ⟨t, ht, rfl⟩ := (hmem k).1 hk
+  exact (C05.facetDegOk_iff K).1 hdeg t ht
+
+/-- the boundary-facet list has no repeated key (each of its keys has degree 1); no hypothesis -/
+theorem boundaryFacets_nodup (K : Cx) : (boundaryFacets K).Nodup := by
+  rw [boundaryFacets_eq_filter]
+  refine filter_count_one_nodup _ _ ?_
+  intro k hk
+  rw [← DM.facetDeg_eq_count]
+  simpa using hk
+
+/-- the boundary-facet list is as long as the number of distinct keys of degree 1, for any
+duplicate-free enumeration `keys` of the facet keys -/
+theorem boundaryFacets_length_of_enum (K : Cx) (keys : List (List Nat)) (hnd : keys.Nodup)
+    (hmem : ∀ k, k ∈ keys ↔ ∃ t ∈ allFacets K, t.1 = k) :
+    (boundaryFacets K).length = (keys.filter (fun k => facetDeg K k == 1)).length := by
+  refine length_eq_of_nodup_of_mem_iff (boundaryFacets_nodup K) (hnd.sublist List.filter_sublist) ?_
+  intro k
+  rw [mem_boundaryFacets, List.mem_filter, hmem]
+  simp
+
+/-- the distinct facet keys, via the de-duplicated key list -/
+theorem dedup_keys_enum (K : Cx) :
+    (dedup ((allFacets K).map (·.1))).Nodup ∧
+    ∀ k, k ∈ dedup ((allFacets K).map (·.1)) ↔ ∃ t ∈ allFacets K, t.1 = k :=
+  ⟨dedup_nodup _, fun k => by rw [dedup_mem, List.mem_map]⟩
+
+/-- the distinct facet keys, via the `D`-vertex faces -/
+theorem facesK_D_enum (K : Cx) (hlen : ∀ c ∈ K.cells, c.vs.length = K.D + 1) :
+    (facesK K K.D).Nodup ∧ ∀ k, k ∈ facesK K K.D ↔ ∃ t ∈ allFacets K, t.1 = k :=
+  ⟨facesK_nodup K K.D, facesK_D_mem_iff_facetKey K hlen⟩
+
+/-- **handshake**: `(D + 1) · #cells = 2 · #(interior facets) + #(boundary facets)`, the distinct
+facets being the `D`-vertex faces `facesK K K.D` -/
+theorem handshake (K : Cx) (hlen : ∀ c ∈ K.cells, c.vs.length = K.D + 1)
+    (hdeg : facetDegOk K = true) :
+    (K.D + 1) * K.cells.length =
+      2 * ((facesK K K.D).filter (fun k => facetDeg K k == 2)).length +
+        ((facesK K K.D).filter (fun k => facetDeg K k == 1)).length := by
+  rw [← allFacets_length K hlen]
+  exact handshake_of_enum K hdeg _ (facesK_D_enum K hlen).1 (facesK_D_enum K hlen).2
+
+/-- the same with the distinct keys taken from the de-duplicated key list -/
+theorem handshake_dedup (K : Cx) (hlen : ∀ c ∈ K.cells, c.vs.length = K.D + 1)
+    (hdeg : facetDegOk K = true) :
+    (K.D + 1) * K.cells.length =
+      2 * ((dedup ((allFacets K).map (·.1))).filter (fun k => facetDeg K k == 2)).length +
+        ((dedup ((allFacets K).map (·.1))).filter (fun k => facetDeg K k == 1)).length := by
+  rw [← allFacets_length K hlen]
+  exact handshake_of_enum K hdeg _ (dedup_keys_enum K).1 (dedup_keys_enum K).2
+
+/-- `boundaryFacets K` lists each distinct key of degree 1 exactly once -/
+theorem boundaryFacets_length (K : Cx) (hlen : ∀ c ∈ K.cells, c.vs.length = K.D + 1) :
+    (boundaryFacets K).length = ((facesK K K.D).filter (fun k => facetDeg K k == 1)).length :=
+  boundaryFacets_length_of_enum K _ (facesK_D_enum K hlen).1 (facesK_D_enum K hlen).2
+
+theorem boundaryFacets_length_dedup (K : Cx) :
+    (boundaryFacets K).length =
+      ((dedup ((allFacets K).map (·.1))).filter (fun k => facetDeg K k == 1)).length :=
+  boundaryFacets_length_of_enum K _ (dedup_keys_enum K).1 (dedup_keys_enum K).2
+
+/-- handshake with the boundary written as the stored boundary-facet list -/
+theorem handshake_boundary (K : Cx) (hlen : ∀ c ∈ K.cells, c.vs.length = K.D + 1)
+    (hdeg : facetDegOk K = true) :
+    (K.D + 1) * K.cells.length =
+      2 * ((facesK K K.D).filter (fun k => facetDeg K k == 2)).length +
+        (boundaryFacets K).length := by
+  rw [boundaryFacets_length K hlen]
+  exact handshake K hlen hdeg
+
+/-- every distinct facet is interior or boundary: `#facets = #interior + #boundary` -/
+theorem facets_split (K : Cx) (hlen : ∀ c ∈ K.cells, c.vs.length = K.D + 1)
+    (hdeg : facetDegOk K = true) :
+    (facesK K K.D).length =
+      ((facesK K K.D).filter (fun k => facetDeg K k == 2)).length + (boundaryFacets K).length := by
+  have key : ∀ (l : List (List Nat)), (∀ k ∈ l, facetDeg K k = 1 ∨ facetDeg K k = 2) →
+      l.length = (l.filter (fun k => facetDeg K k == 2)).length +
+        (l.filter (fun k => facetDeg K k == 1)).length := by
+    intro l hl
+    induction l with
+    | nil => rfl
+    | cons k ks ih =>
+      have ih' := ih (fun a ha => hl a (List.mem_cons_of_mem _ ha))
+      simp only [List.filter_cons, List.length_cons]
+      rcases hl k List.mem_cons_self with h | h <;> simp [h] <;> omega
+  rw [boundaryFacets_length K hlen]
+  refine key _ ?_
+  intro k hk
+  obtain ⟨t, ht, rfl⟩ := ((facesK_D_enum K hlen).2 k).1 hk
+  exact (C05.facetDegOk_iff K).1 hdeg t ht
+
+/-- in a closed complex every facet key has degree exactly 2 -/
+theorem closed_facetDeg_eq_two (K : Cx) (hdeg : facetDegOk K = true) (hcl : boundaryFacets K = [])
+    (t : List Nat × Nat × Nat) (ht : t ∈ allFacets K) : facetDeg K t.1 = 2 := by
+  rcases (C05.facetDegOk_iff K).1 hdeg t ht with h | h
+  · have : t.1 ∈ boundaryFacets K := mem_boundaryFacets.2 ⟨⟨t, ht, rfl⟩, h⟩
+    rw [hcl] at this
+    cases this
+  · exact h
+
+/-- **closed handshake**: without boundary (the periodic / toroidal mode, spheres),
+`(D + 1) · #cells = 2 · #facets` -/
+theorem closed_handshake (K : Cx) (hlen : ∀ c ∈ K.cells, c.vs.length = K.D + 1)
+    (hdeg : facetDegOk K = true) (hcl : boundaryFacets K = []) :
+    (K.D + 1) * K.cells.length = 2 * (facesK K K.D).length := by
+  rw [← allFacets_length K hlen,
+    facet_incidences_eq_sum_deg K _ (facesK_D_enum K hlen).1
+      (fun t ht => ((facesK_D_enum K hlen).2 t.1).2 ⟨t, ht, rfl⟩),
+    ← sum_map_const]
+  refine sum_map_congr _ _ _ ?_
+  intro k hk
+  obtain ⟨t, ht, rfl⟩ := ((facesK_D_enum K hlen).2 k).1 hk
+  exact closed_facetDeg_eq_two K hdeg hcl t ht
+
+theorem closed_handshake_dedup (K : Cx) (hlen : ∀ c ∈ K.cells, c.vs.length = K.D + 1)
+    (hdeg : facetDegOk K = true) (hcl : boundaryFacets K = []) :
+    (K.D + 1) * K.cells.length = 2 * (dedup ((allFacets K).map (·.1))).length := by
+  rw [← allFacets_length K hlen,
+    facet_incidences_eq_sum_deg K _ (dedup_keys_enum K).1
+      (fun t ht => ((dedup_keys_enum K).2 t.1).2 ⟨t, ht, rfl⟩),
+    ← sum_map_const]
+  refine sum_map_congr _ _ _ ?_
+  intro k hk
+  obtain ⟨t, ht, rfl⟩ := ((dedup_keys_enum K).2 k).1 hk
+  exact closed_facetDeg_eq_two K hdeg hcl t ht
+
+/-- closed surfaces: `3F = 2E` (`E` = number of 2-vertex faces = `number_of_edges`) -/
+theorem closed_surface_3F_eq_2E (K : Cx) (hD : K.D = 2)
+    (hlen : ∀ c ∈ K.cells, c.vs.length = K.D + 1) (hdeg : facetDegOk K = true)
+    (hcl : boundaryFacets K = []) :
+    3 * K.cells.length = 2 * (facesK K 2).length ∧
+    3 * K.cells.length = 2 * (allEdges K).length := by
+  have h := closed_handshake K hlen hdeg hcl
+  rw [hD] at h
+  exact ⟨h, by rw [allEdges_length_eq_facesK2]; exact h⟩
+
+/-- the f-vector of a 2-complex, spelled out (also for a complex without cells) -/
+theorem fVector_surface (K : Cx) (hD : K.D = 2) :
+    fVector K = [K.verts.length, if K.cells.isEmpty then 0 else (facesK K 2).length,
+      K.cells.length] := by
+  unfold fVector
+  rw [hD]
+  cases hc : K.cells with
+  | nil => rfl
+  | cons c cs => rfl
+
+/-- `3 f₂ = 2 f₁` for the f-vector entries of a closed surface -/
+theorem closed_surface_fVector (K : Cx) (hD : K.D = 2)
+    (hlen : ∀ c ∈ K.cells, c.vs.length = K.D + 1) (hdeg : facetDegOk K = true)
+    (hcl : boundaryFacets K = []) :
+    3 * (fVector K).getD 2 0 = 2 * (fVector K).getD 1 0 := by
+  rw [fVector_surface K hD]
+  have h := (closed_surface_3F_eq_2E K hD hlen hdeg hcl).1
+  cases hc : K.cells with
+  | nil => rfl
+  | cons c cs =>
+    rw [hc] at h
+    simpa using h
+
+/-- Euler characteristic of a closed surface from vertices and triangles only:
+`2 χ = 2 V − F` (so `F` is even and `χ = V − F / 2`) -/
+theorem closed_surface_euler (K : Cx) (hD : K.D = 2)
+    (hlen : ∀ c ∈ K.cells, c.vs.length = K.D + 1) (hdeg : facetDegOk K = true)
+    (hcl : boundaryFacets K = []) :
+    2 * eulerChi (fVector K) = 2 * (K.verts.length : Int) - (K.cells.length : Int) := by
+  rw [fVector_surface K hD, eulerChi_def.2.2.1]
+  have h := (closed_surface_3F_eq_2E K hD hlen hdeg hcl).1
+  cases hc : K.cells with
+  | nil => simp
+  | cons c cs =>
+    rw [hc] at h
+    simp only [List.isEmpty_cons, Bool.false_eq_true, ↓reduceIte]
+    omega
+
+/-! ## §10 non-vacuity of the handshake -/
+
+open DM.C05 in
+theorem twoTri_hlen : ∀ c ∈ twoTri.cells, c.vs.length = twoTri.D + 1 := by decide
+
+open DM.C05 in
+theorem twoTri_facetDegOk : facetDegOk twoTri = true := by decide
+
+/-- two triangles sharing an edge: `3 · 2 = 2 · 1 + 4` -/
+theorem twoTri_handshake :
+    (C05.twoTri.D + 1) * C05.twoTri.cells.length = 6 ∧
+    (allFacets C05.twoTri).length = 6 ∧
+    ((facesK C05.twoTri C05.twoTri.D).filter (fun k => facetDeg C05.twoTri k == 2)).length = 1 ∧
+    ((facesK C05.twoTri C05.twoTri.D).filter (fun k => facetDeg C05.twoTri k == 1)).length = 4 ∧
+    (boundaryFacets C05.twoTri).length = 4 ∧
+    (facesK C05.twoTri C05.twoTri.D).length = 5 := by decide
+
+/-- the general theorem instantiated at the two triangles -/
+theorem twoTri_handshake_inst :
+    (C05.twoTri.D + 1) * C05.twoTri.cells.length =
+      2 * ((facesK C05.twoTri C05.twoTri.D).filter (fun k => facetDeg C05.twoTri k == 2)).length +
+        (boundaryFacets C05.twoTri).length :=
+  handshake_boundary C05.twoTri twoTri_hlen twoTri_facetDegOk
+
+/-- the boundary of the tetrahedron `0123` as a closed 2-complex (4 triangles, 6 edges, 4 vertices;
+vertex coordinates play no role for the counts) -/
+def tetBoundary : Cx :=
+  { D := 2
+    verts := [⟨0, none, some 0⟩, ⟨1, none, some 0⟩, ⟨2, none, some 0⟩, ⟨3, none, some 1⟩]
+    cells := [⟨0, [0, 1, 2], none⟩, ⟨1, [0, 3, 1], none⟩, ⟨2, [1, 3, 2], none⟩,
+              ⟨3, [0, 2, 3], none⟩] }
+
+theorem tetBoundary_hlen : ∀ c ∈ tetBoundary.cells, c.vs.length = tetBoundary.D + 1 := by decide
+
+theorem tetBoundary_facetDegOk : facetDegOk tetBoundary = true := by decide
+
+theorem tetBoundary_closed : boundaryFacets tetBoundary = [] := by decide
+
+/-- `3 · 4 = 2 · 6`, χ = 4 − 6 + 4 = 2 -/
+theorem tetBoundary_counts :
+    (tetBoundary.D + 1) * tetBoundary.cells.length = 12 ∧
+    (allFacets tetBoundary).length = 12 ∧
+    (facesK tetBoundary tetBoundary.D).length = 6 ∧
+    (dedup ((allFacets tetBoundary).map (·.1))).length = 6 ∧
+    fVector tetBoundary = [4, 6, 4] ∧
+    eulerChi (fVector tetBoundary) = 2 := by decide
+
+/-- the general theorems instantiated at the closed example -/
+theorem tetBoundary_closed_handshake :
+    3 * tetBoundary.cells.length = 2 * (facesK tetBoundary 2).length ∧
+    2 * eulerChi (fVector tetBoundary) =
+      2 * (tetBoundary.verts.length : Int) - (tetBoundary.cells.length : Int) :=
+  ⟨(closed_surface_3F_eq_2E tetBoundary rfl tetBoundary_hlen tetBoundary_facetDegOk
+      tetBoundary_closed).1,
+   closed_surface_euler tetBoundary rfl tetBoundary_hlen tetBoundary_facetDegOk
+      tetBoundary_closed⟩
+
+/-- the degree hypothesis of the handshake is needed: three triangles on one edge (degree 3) break
+`(D + 1) · #cells = 2 · #deg2 + #deg1` -/
+theorem handshake_needs_degOk :
+    let K : Cx := { D := 2, verts := [],
+                    cells := [⟨0, [0, 1, 2], none⟩, ⟨1, [0, 1, 3], none⟩, ⟨2, [0, 1, 4], none⟩] }
+    facetDegOk K = false ∧ (K.D + 1) * K.cells.length = 9 ∧
+    2 * ((facesK K K.D).filter (fun k => facetDeg K k == 2)).length +
+      ((facesK K K.D).filter (fun k => facetDeg K k == 1)).length = 6 := by decide
 
 end DM.C15
